@@ -317,6 +317,33 @@ def gen_case(rng):
     return {"n": n, "spec": gen_spec(rng, n, int(rng.integers(0, 3)), good), "inv": bool(rng.integers(2))}
 
 
+def zero_family():
+    """Systematic, every run: semi-definite leaves (an exact 0 on the diagonal, scaling factor 0) and
+    strictly positive ones, seen through every mode flip (all four _trafo values), both sampling
+    dtypes, forward and inverse draws -- the refusal must follow the flip-corrected direction."""
+    out = []
+    wraps = [[], ["inverse"], ["adjoint"], ["adjoint", "inverse"], ["inverse", "adjoint"], ["inverse", "inverse"]]
+    for dt in ("f", "c"):
+        leaves = [["diag", [4.0, 0.0, 0.25], None, dt], ["diag", [0.0], None, dt], ["diag", [1.0, 16.0], None, dt],
+                  ["scal", 0.0, 0.0, dt], ["scal", 4.0, 0.0, dt],
+                  ["diag2", [0.0, 4.0], None, dt, [2, 2], 0], ["diag2", [0.25, 0.0], None, dt, [2, 2], 1]]
+        for leaf in leaves:
+            n = 4 if leaf[0] == "diag2" else (len(leaf[1]) if leaf[0] == "diag" else 2)
+            for w in wraps:
+                if leaf[0] == "scal" and leaf[1] == 0.0 and "inverse" in w:
+                    continue      # ScalingOperator(0).inverse refuses at construction (ZeroDivisionError): not admissible
+                sp = leaf
+                for k in reversed(w):
+                    sp = [k, sp]
+                for inv in (False, True):
+                    out.append({"n": n, "spec": sp, "inv": inv})
+    # the same behind a sandwich with an invertible bun and inside a block
+    for inv in (False, True):
+        out.append({"n": 3, "spec": ["sandwich", ["fftshift"], ["inverse", ["diag", [4.0, 0.0, 1.0], None, "f"]], None], "inv": inv})
+        out.append({"n": 3, "spec": ["block", {"a": [2, ["inverse", ["diag", [0.0, 4.0], None, "f"]]], "b": [1, ["scal", 0.0, 0.0, "f"]]}], "inv": inv})
+    return out
+
+
 def has(s, kind):
     if isinstance(s, list):
         if s and s[0] == kind:
@@ -608,6 +635,8 @@ class C13(C.Check):
                         % (c["inv"], ext[1], ext[2]))
             return None
         sizes, T, zero = ext[1], ext[2], ext[3]
+        if not (np.all(np.isfinite(T)) and np.all(np.isfinite(zero))):
+            return ("nonfinite", "draw_sample(from_inverse=%s) returned a non-finite sample instead of refusing" % c["inv"])
         if not np.all(zero == 0):
             return ("mean", "the sample for zero noise is not zero (non-zero mean)")
         tol = 1e-7 if (has(c["spec"], "sampen") or has(c["spec"], "inven")) else 1e-10
@@ -657,7 +686,7 @@ class C13(C.Check):
         import nifty.cl as ift
         self.ift = ift
         rng = ctx.rng(13)
-        todo = [c for c in ctx.corpus()]
+        todo = [c for c in ctx.corpus()] + zero_family()
         for _ in range(220 if ctx.quick else 2500):
             todo.append(json.loads(json.dumps(gen_case(rng))))
         self.cases = []
@@ -688,7 +717,7 @@ class C13(C.Check):
         res.coverage.update({
             "evaluations": len(self.cases), "modelled_cases_compared_in_coq": len(checks),
             "distinct_nontrivial": distinct,
-            "rule": "random operator expressions (depth <= 2) over scaling / diagonal (full, partial-space, .inverse/.adjoint, real and complex sampling dtype, missing dtype, zero / negative / complex entries) / sandwiches (matrix, invertible diagonal, scaling, expanding, masking buns; cheese or sampling_dtype) / sums / block-diagonals (with missing keys) / adapters / InversionEnabler / SamplingEnabler, forward and inverse draws; non-trivial = anything but a bare scaling; distinct by JSON",
+            "rule": "random operator expressions (depth <= 2) plus a systematic family of semi-definite and positive scalings/diagonals under every mode flip (all four _trafo values) x dtype x direction, over scaling / diagonal (full, partial-space, .inverse/.adjoint, real and complex sampling dtype, missing dtype, zero / negative / complex entries) / sandwiches (matrix, invertible diagonal, scaling, expanding, masking buns; cheese or sampling_dtype) / sums / block-diagonals (with missing keys) / adapters / InversionEnabler / SamplingEnabler, forward and inverse draws; non-trivial = anything but a bare scaling; distinct by JSON",
             "samples": [o["case"] for o in self.cases[:3]],
             "input_distribution": {"top_level_kind": kinds, "outcome": outcomes},
             "disagreements": len(bad),
